@@ -83,6 +83,17 @@ def mon_c01(m, out):
             if any(m.is_sched[r] for r in reqs):
                 out.count('starts requiring a nested scheduler')
                 out.nontrivial = True
+                # "finished means that the nested scheduler's whole run is over":
+                # nothing inside it may still be executing
+                for r in reqs:
+                    if m.is_sched[r]:
+                        for inner in m.subtree_all(r):
+                            ien, ibe = m.enter(inner), m.body_end(inner)
+                            out.count('jobs inside a required nested scheduler checked to be over')
+                            if ien is not None and ien['seq'] < en['seq'] and (ibe is None or ibe['seq'] > en['seq']):
+                                out.violation('start-before-nested-run-over',
+                                              "%s entered (t=%s) although %s, inside its requirement %s, was still executing"
+                                              % (j, en['t'], inner, r))
             if any(e['kind'] in END_KO for e in ends):
                 out.count('starts requiring a job that raised')
                 out.nontrivial = True
@@ -491,19 +502,40 @@ def mon_c07(m, out):
         peak = 0
         seen_kinds = set()
         djs = set(a.dj)
+        # a nested scheduler occupies its slot for as long as anything it
+        # started is executing: its own run, or a job of its subtree that
+        # (wrongly) outlives it
+        owner = {}
+        last_end = {}
+        for j in a.dj:
+            if m.is_sched[j]:
+                for inner in m.subtree_all(j):
+                    owner[inner] = j
+                    be = m.body_end(inner)
+                    if m.enter(inner) is not None:
+                        last_end[j] = max(last_end.get(j, -1), be['seq'] if be is not None else len(m.ev) + 1)
         for e in m.ev:
             j = e['who']
+            if j in owner and e['kind'] in BODYEND:
+                top_j = owner[j]
+                own = m.body_end(top_j)
+                if own is not None and own['seq'] < e['seq'] and e['seq'] >= last_end.get(top_j, -1):
+                    running.discard(top_j)
+                continue
             if j not in djs:
                 continue
             if e['kind'] in START:
                 running.add(j)
                 peak = max(peak, len(running))
                 if len(running) > n:
-                    out.violation('window-exceeded', "%s: window %d exceeded at seq %d t=%s: %s execute at once"
+                    out.violation('window-exceeded', "%s: window %d exceeded at seq %d t=%s: %s execute at once "
+                                  "(a nested scheduler counts until everything it started is over)"
                                   % (s, n, e['seq'], e['t'], sorted(running)))
             elif e['kind'] in BODYEND:
-                running.discard(j)
                 seen_kinds.add(e['kind'])
+                if m.is_sched[j] and last_end.get(j, -1) > e['seq']:
+                    continue        # something it started is still executing
+                running.discard(j)
         if peak == n:
             out.count('saturated runs, window %d depth %d' % (n, m.depth[s]))
             out.nontrivial = True
